@@ -29,6 +29,7 @@ type W2Opt struct {
 	NilTagPct   int  // requests that make the engine panic on the caller's goroutine
 	OptPct      int
 	UpdFromRule bool
+	Restore     bool // the root task re-installs the initial text before the final probe round (C17 with admins)
 	Scripted    bool // C16: a single task alternates operations, queries and probe rounds
 	Oracle      func(w *W2Run) []Violation
 }
@@ -166,6 +167,8 @@ type W2Run struct {
 	Queries  []queryRec
 	NilTag   map[int]bool
 	InitErr  error
+	RestoreErr string
+	NAdmins  int
 }
 
 type opResult struct {
@@ -372,6 +375,7 @@ func RunW2(opt *W2Opt, plan, sched *simrt.Source, trace bool) *RunOut {
 			}
 		}
 	}
+	w.NAdmins = nAdmins
 	w.OpRes = make([][]opResult, nAdmins)
 	for ai := range w.OpRes {
 		w.OpRes[ai] = make([]opResult, len(w.Ops[ai]))
@@ -400,7 +404,7 @@ func RunW2(opt *W2Opt, plan, sched *simrt.Source, trace bool) *RunOut {
 	var waiterRound *Round
 	var waiterCalls []*Call
 	var waiterExtra *Call
-	if opt.WaiterRound && g.Pct(60) {
+	if opt.WaiterRound && nAdmins == 0 && g.Pct(60) {
 		waiterRound = &Round{Need: w.Max, K: int64(20 + g.Intn(200)), wTask: map[int]int32{}, wBase: map[int]int64{}, FullSeq: -1}
 		if g.Pct(70) {
 			waiterRound.ExtraGate = simrt.HoldGateBit | 1<<40
@@ -568,6 +572,19 @@ func RunW2(opt *W2Opt, plan, sched *simrt.Source, trace bool) *RunOut {
 			})
 		}
 		wg.Wait()
+		if opt.Restore && nAdmins > 0 {
+			simrt.Emit(EvProbe, 0, 2, 0)
+			func() {
+				defer func() {
+					if e := recover(); e != nil {
+						w.RestoreErr = fmt.Sprint(e)
+					}
+				}()
+				if err := pool.UpdatePooledRules(text); err != nil {
+					w.RestoreErr = err.Error()
+				}
+			}()
+		}
 		if finalRound != nil {
 			var fw sync.WaitGroup
 			for _, c := range finalCalls {
